@@ -2203,9 +2203,8 @@ int
 SNOW3G_INIT_KEY_SCHED(const void *pKey, snow3g_key_schedule_t *pCtx)
 {
 #ifdef SAFE_PARAM
-        if ((pKey == NULL) || (pCtx == NULL))
-                /* reset error status */
-                imb_set_errno(NULL, 0);
+        /* reset error status */
+        imb_set_errno(NULL, 0);
 
         if (pKey == NULL) {
                 imb_set_errno(NULL, IMB_ERR_NULL_KEY);
@@ -3296,6 +3295,9 @@ SNOW3G_F9_1_BUFFER(const snow3g_key_schedule_t *pHandle, const void *pIV, const 
                    const uint64_t lengthInBits, void *pDigest)
 {
 #ifdef SAFE_PARAM
+        /* reset error status */
+        imb_set_errno(NULL, 0);
+
         if (pHandle == NULL) {
                 imb_set_errno(NULL, IMB_ERR_NULL_EXP_KEY);
                 return;
